@@ -34,8 +34,8 @@ ALPHA_SIZE = [13, 6, 4, 7, 5]
 VALS = ['', '${', 'a', '}', '$', '{a']
 LITS = ['x', '$', '{', '}']
 
-K_NONE, K_BLANK, K_COMMENT, K_SEC, K_SECEND, K_KV, K_REF, K_ENV = range(8)
-KNAME = {K_NONE: 'none', K_BLANK: 'blank', K_COMMENT: 'comment', K_SEC: 'sec', K_SECEND: 'secend', K_KV: 'kv', K_REF: 'ref', K_ENV: 'env'}
+K_NONE, K_BLANK, K_COMMENT, K_SEC, K_SECEND, K_KV, K_REF, K_ENV, K_REF2 = range(9)
+KNAME = {K_NONE: 'none', K_BLANK: 'blank', K_COMMENT: 'comment', K_SEC: 'sec', K_SECEND: 'secend', K_KV: 'kv', K_REF: 'ref', K_ENV: 'env', K_REF2: 'ref2'}
 T_REF, T_LITREF, T_ENV, T_CMD = 1, 2, 3, 4
 TNAME = {T_REF: 'ref', T_LITREF: 'litref', T_ENV: 'env', T_CMD: 'cmd'}
 
@@ -54,7 +54,7 @@ EXPAND_BOUND = MAX_EXPANSIONS + 2    # unwinding bound of the ${} expansion loop
 def line_radix(k, r):
     return {K_NONE: 1, K_BLANK: N_LAY[r], K_COMMENT: N_LAY[r] * N_COMMENTS[r], K_SEC: N_LAY[r] * N_SECS[r], K_SECEND: N_LAY[r],
             K_KV: N_LAY[r] * N_NAMES[r] * N_KVVALS[r], K_REF: N_LAY[r] * N_NAMES[r] * N_REFS[r] * N_PRES[r],
-            K_ENV: N_LAY[r] * N_NAMES[r] * N_ENVNAMES}[k]
+            K_ENV: N_LAY[r] * N_NAMES[r] * N_ENVNAMES, K_REF2: N_LAY[r] * N_NAMES[r] * 18}[k]
 
 
 def doc_total(kinds, r):
@@ -271,10 +271,12 @@ def doc_plan(tier):
     if tier == 'quick':
         out = [((k,), 2 if k == K_REF else 3) for k in kinds]
         out += [(p, 1) for p in itertools.product(kinds, repeat=2)]
+        out += [((K_KV, K_REF2), 1)]   # two references on one line, each defined or not
     else:
         out = [((k,), 3) for k in kinds]
         out += [(p, 2) for p in itertools.product(kinds, repeat=2)]
         out += [(p, 0) for p in itertools.product(kinds, repeat=3)]
+        out += [((K_REF2,), 3), ((K_KV, K_REF2), 2), ((K_SEC, K_REF2), 1), ((K_REF, K_REF2), 1), ((K_REF2, K_REF2), 1), ((K_KV, K_KV, K_REF2), 0), ((K_KV, K_SEC, K_REF2), 0)]
     return out
 
 
@@ -373,7 +375,7 @@ def info(tier):
                        'C17 raw: every string with %s; C17 @INCLUDE: prefix/name/suffix/include-text lists of harness/ini.c at richness %d, include file present or missing; '
                        'C17 expansion templates: <= 3 lines of name=${ref} / name=lit${ref} / name=${%%ENV} / name=${!cmd}, names and references each over {a,b,c}, literal over {x $ { }}, '
                        'environment value / command output over {"", "${", "a", "}", "$", "{a", unset} (three-line templates: %s), expansion loop bound %d rounds; '
-                       'C20 documents: %s, line kinds {blank, #comment, [sec], [], k = v, k = [lit]${ref}, k = ${%%ENV}}, names/sections/values/references/layouts from the lists in harness/ini.c '
+                       'C20 documents: %s, line kinds {blank, #comment, [sec], [], k = v, k = [lit]${ref}, k = ${r1}[x]${r2}, k = ${%%ENV}}, names/sections/values/references/layouts from the lists in harness/ini.c '
                        '(1 line: full lists; 2 lines: %s lists%s), last line with and without newline, CR LF layouts, environment variable set/unset; '
                        'C20 @INCLUDE: [line A] @INCLUDE i [line B] with a one-line include file, %d structural variants (padding, absolute/relative path, file present / other name / missing, trailing newlines); '
                        'separator character \'=\'; one include level')
